@@ -8,7 +8,8 @@ using namespace vf;
 const char *HARNESS_ID = "C12";
 std::vector<ModeInfo> harness_modes()
 {
-	return {{"gen", 0, "generated trees with adversarial keys; every node path (complete per tree), mutated pointers, set histories, printf variants"},
+	return {{"fmtlen", 1200, "getf/setf vs get/set for a pointer of every formatted length 1..600 (two shapes): long member names"},
+	        {"gen", 0, "generated trees with adversarial keys; every node path (complete per tree), mutated pointers, set histories, printf variants"},
 	        {"literal", 0, "replay: JSON text, NUL, pointer; get and set are both checked"}};
 }
 
@@ -292,6 +293,46 @@ void run_case(Choices &c, Ctx &ctx)
 		t.same("after lookups");
 		t.set(p, 777, 0);
 		json_object_put(t.root);
+		leak.check(ctx);
+		return;
+	}
+	if (ctx.mode == "fmtlen")
+	{
+		uint64_t idx = c.bits(8);
+		size_t L = 1 + idx % 600; // total pointer length
+		bool two = idx >= 600;
+		// tree {"<long key>": {"<key2>": [10,20]}, "<long key>x": 5}; the pointer to the inner array element has length L+... exactly chosen below
+		Val v = Val::obj();
+		std::string k1, k2;
+		if (!two)
+			k1 = std::string(L > 1 ? L - 1 : 0, 'k'); // "/" + k1 has length L
+		else
+		{
+			size_t rest = L > 4 ? L - 4 : 0;       // "/" k1 "/" k2 "/0"
+			k1 = std::string(rest / 2, 'a');
+			k2 = std::string(rest - rest / 2, 'b');
+		}
+		Val inner = Val::obj();
+		Val arr = Val::arr();
+		arr.a.push_back(Val::i64(10));
+		arr.a.push_back(Val::i64(20));
+		inner.set(k2, arr);
+		inner.set(k2 + "x", Val::i64(7));
+		v.set(k1, two ? inner : arr);
+		v.set(k1 + "x", Val::i64(5));
+		if (k1.size() > 1)
+			v.set(k1.substr(0, k1.size() - 1), Val::i64(6)); // the name one byte shorter exists too
+		T t(ctx, v);
+		std::string p = two ? "/" + k1 + "/" + k2 + "/0" : "/" + k1;
+		ctx.note("pointer of " + str(p.size()) + " bytes");
+		for (int var = 0; var < 4; var++)
+			t.get(p, var);
+		t.get(p + "x", 1);
+		t.set(p, 4242, 1);
+		t.set(p, 4243, 2);
+		t.set(two ? "/" + k1 + "/" + k2 + "/-" : "/" + k1 + "y", 4244, 1);
+		json_object_put(t.root);
+		ctx.nontrivial(idx);
 		leak.check(ctx);
 		return;
 	}
